@@ -264,6 +264,66 @@ def run(ctx):
                           % (k, *['refused' if x else 'accepted' for x in (i_grid, i_w[0], i_w[1])]), {'kind': k, 'version': '2.0'})
             return
 
+    # ---- 1b. instances of SUBCLASSES of the 3.0-only container kinds are 3.0-only values too (isinstance, as both writers test):
+    # every store of a pre-3.0 grid refuses them, an unversioned grid reports 3.0 once it holds one, both writers refuse them under 2.0
+    import collections
+
+    class _L(list):
+        pass
+
+    class _D(dict):
+        pass
+
+    def subs():
+        from hszinc.sortabledict import SortableDict
+        sd = SortableDict()
+        sd['k'] = 1.0
+        dd = collections.defaultdict(list)
+        dd['k'] = 1.0
+        return [('list subclass', _L([1.0])), ('empty list subclass', _L()), ('dict subclass', _D(k=1.0)), ('OrderedDict', collections.OrderedDict(k=1.0)),
+                ('defaultdict', dd), ('SortableDict', sd), ('empty OrderedDict', collections.OrderedDict())]
+    paths = {'metadata store': lambda g, v: g.metadata.__setitem__('m', v),
+             'column metadata store': lambda g, v: g.column['c0'].__setitem__('k', v),
+             'column added with metadata': lambda g, v: g.column.__setitem__('c1', {'k': v}),
+             'append': lambda g, v: g.append({'c0': v}),
+             'insert': lambda g, v: g.insert(0, {'c0': v}),
+             'item assignment': lambda g, v: g.__setitem__(0, {'c0': v}),
+             'extend': lambda g, v: g.extend([{'c0': 1.0}, {'c0': v}])}
+    for name, _ in subs():
+        for pname, store in paths.items():
+            for ver in ('2.0', '1.0', None):
+                v = dict(subs())[name]
+                g = h.Grid(version=ver) if ver else h.Grid()
+                g.column['c0'] = {}
+                g.append({'c0': 1.0})
+                ctx.coverage['evaluations'] += 1
+                ctx.count('subclass-store')
+                try:
+                    store(g, v)
+                    outcome = 'accepted'
+                except ValueError:
+                    outcome = 'refused'
+                except Exception as e:  # noqa
+                    outcome = 'raises ' + type(e).__name__
+                rep = {'value': name, 'store': pname, 'version': ver}
+                if ver is not None and outcome != 'refused':
+                    ctx.violation('impl-counterexample', 'a grid of version %s: %s of a value that is a %s is %s (a 3.0-only kind: it must be refused with ValueError)'
+                                  % (ver, pname, name, outcome), rep)
+                    return
+                if ver is None and (outcome != 'accepted' or str(g.version) != '3.0'):
+                    ctx.violation('impl-counterexample', 'a grid created without version: after %s of a value that is a %s (%s) it reports version %s, not 3.0'
+                                  % (pname, name, outcome, g.version), rep)
+                    return
+        for mode in (h.MODE_ZINC, h.MODE_JSON):
+            v = dict(subs())[name]
+            ctx.coverage['evaluations'] += 1
+            try:
+                h.dump_scalar(v, mode=mode, version=Version('2.0'))
+                ctx.violation('impl-counterexample', 'the %s writer accepts a %s under version 2.0' % (mode, name), {'value': name, 'mode': str(mode)})
+                return
+            except Exception:  # noqa - ValueError for list / dict subclasses; a SortableDict is no value the writers know (NotImplementedError): nothing is written either way
+                pass
+
     # ---- 2. histories
     histories = []
     stores = ['meta', 'colmeta', 'colset', 'coladd', 'append', 'insert', 'setitem', 'extend']     # + 'colshare' histories below
